@@ -87,7 +87,20 @@ def shift_register_form(rep, c, env, inp):
                 guards = [c.norm(fr[1]) for fr in gen if fr[0] == 'pyif' and fr[2]]
                 excludes_one = any(g == c.norm(ir.parse("self.input_stages > 1")) or g == c.norm(ir.parse("self.input_stages >= 2")) for g in guards)
                 if excludes_one:
-                    rep.unk("C16.1", site, "synchroniser cell", "FFSynchronizer is used only for input_stages >= 2; the remaining depths are not matched to a verified shape")
+                    # the other depths: what does the Input field read when the cell is not used?
+                    direct = False
+                    for dd in (inp or []):
+                        v_ = c.norm(dd.value)
+                        for x in ir.walk(v_):
+                            if x[0] == 'phi' and c.norm(x[1]) in (c.norm(ir.parse("self.input_stages > 1")), c.norm(ir.parse("self.input_stages >= 2"))) \
+                                    and c.norm(x[3]) == c.parse("pin.i", env):
+                                direct = True
+                    if direct:
+                        rep.bad("C16.1", site, "chain length == input_stages",
+                                "the synchroniser cell is used only for input_stages >= 2 and every other depth reads the pin directly: with "
+                                "input_stages == 1 (accepted by the constructor) the Input register shows the pin without the one-cycle delay", line=ln)
+                    else:
+                        rep.unk("C16.1", site, "synchroniser cell", "FFSynchronizer is used only for input_stages >= 2; the remaining depths are not matched to a verified shape")
                 else:
                     rep.bad("C16.1", site, "chain length == input_stages",
                             "FFSynchronizer(stages=self.input_stages) is reached with input_stages == 1, which the constructor accepts; the "
